@@ -948,7 +948,7 @@ class Standard(Output):
                 # xaxis_date() will cause an error, since the x-axis limits are set
                 # such that the plot is around 0. Override the x-limits so that the
                 # user at least does not get a cryptic error message.
-                if np.sum(np.isnan(y) == 0) == 0:
+                if np.sum(np.isnan(y) == 0) == 0 and len(x) > 0:
                     mpl.xlim([min(x), max(x)])
                 mpl.gca().xaxis_date()
             else:
@@ -1471,7 +1471,7 @@ class ObsFcst(Output):
                 # xaxis_date() will cause an error, since the x-axis limits are set
                 # such that the plot is around 0. Override the x-limits so that the
                 # user at least does not get a cryptic error message.
-                if np.sum(np.isnan(y) == 0) == 0:
+                if np.sum(np.isnan(y) == 0) == 0 and len(x) > 0:
                     mpl.xlim([min(x), max(x)])
                 mpl.gca().xaxis_date()
             else:
